@@ -18,6 +18,7 @@ The theorems `C14_inv_*` then state the property against the table: a health val
 contains one of the events that the table lists for that field.
 -/
 import PrimaiteModel.Props.C14Dyn
+import PrimaiteModel.Props.C14Life
 import PrimaiteModel.Gen.Health
 namespace Primaite.Health
 open Primaite.Gen.Health (W T)
@@ -233,5 +234,157 @@ the ones the model follows, statement for statement; and every `apply_timestep` 
 `super().apply_timestep` on every path (no early exit in front of it). -/
 theorem C14_gen_tick_bodies :
     Gen.Health.tickBodies = modelTickBodies ∧ Gen.Health.tickOverridesConditional = [] := ⟨rfl, rfl⟩
+
+/-! ## the property against the table -/
+
+/-- whose field an event writes -/
+inductive Item | sw | file | folder | node | other
+deriving DecidableEq, Repr
+
+def Ev.item : Ev → Item
+  | .swSetter | .swScan | .swFixStart | .swFixTick | .swCompromise | .swWake | .swExternal | .appInstallStart | .appInstallTick
+  | .svcRestartStart | .svcRestartTick => .sw
+  | .fileScan | .fileCorrupt | .fileRepair | .fileRestore | .fileCopy | .fileExternal | .dbReplace => .file
+  | .folderScanStart | .folderScanTick | .folderInstantScan | .folderCorrupt | .folderRepair | .folderRestoreStart
+  | .folderRestoreTick | .folderExternal => .folder
+  | .nodeScanStart | .nodeScanTick | .nodePowerOn | .nodePowerOff | .nodePowerTick => .node
+  | .construct | .outOfScope => .other
+
+/-- the events the TABLE lists for code field `fld` of an item of kind `it` (class-level defaults and constructors aside) -/
+def evsFor (fld : String) (it : Item) : List Ev :=
+  ((modelWriters.filter (fun p => p.1.field = fld && p.2.item = it)).map (·.2)).eraseDups
+
+set_option maxRecDepth 8000 in
+/-- what the table lists, field by field (computed from `modelWriters`, so tied to the source by `C14_gen_inventory`) -/
+theorem C14_inv_events :
+    evsFor "health_state_actual" .sw = [.appInstallTick, .swWake, .swExternal, .swCompromise, .swFixTick, .swFixStart, .swSetter] ∧
+    evsFor "health_state_visible" .sw = [.swScan] ∧
+    evsFor "health_status" .file = [.fileCorrupt, .fileRepair, .fileRestore, .fileExternal] ∧
+    evsFor "visible_health_status" .file = [.fileScan, .dbReplace] ∧
+    evsFor "*" .file = [.fileCopy] ∧
+    evsFor "health_status" .folder =
+      [.folderRestoreTick, .folderScanTick, .folderCorrupt, .folderRepair, .folderRestoreStart, .folderExternal] ∧
+    evsFor "visible_health_status" .folder = [.folderScanTick, .folderInstantScan] := by decide
+
+/-- step `op` from node state `n` contains event `e` writing `new` into the actual health of software item `x` -/
+def swStepHas (n : Node) (op : Op) (x : Sw) (new : SwH) : Ev → Prop
+  | .swExternal => ∃ nm h, op = .swSet nm h ∧ nm = x.name ∧ new = h.toSwH
+  | .swCompromise => ∃ k nm, op = .sw k nm .compromise ∧ n.power = .on ∧ nm = x.name ∧ new = .compromised
+  | .swFixStart => ∃ k nm, op = .sw k nm .fix ∧ n.power = .on ∧ nm = x.name ∧ x.op = .running ∧ x.canFix = true ∧ new = .fixing
+  | .swWake => x.actual = .unused ∧ new = .good ∧
+      (op = .tick ∨ op = .startup ∨ op = .shutdown ∨ op = .reset ∨ (∃ nm, op = .appRun nm ∧ nm = x.name) ∨
+       ∃ k nm, (op = .sw k nm .start ∨ op = .sw k nm .execute) ∧ nm = x.name)
+  | .swFixTick => op = .tick ∧ x.actual = .fixing ∧ new = .good ∧ ∃ c, x.fixCd = some c ∧ c ≤ 1
+  | .appInstallTick => op = .tick ∧ x.isApp = true ∧ x.op = .installing ∧ new = .good ∧ ∃ c, x.auxCd = some c ∧ c ≤ 1
+  | _ => False
+
+/-- **C14 against the inventory (software, actual health).** If the actual health of a software item differs after a step, the
+step contains one of the events that the source's inventory lists for `health_state_actual` — an external `set_health_state`,
+the compromise request, an accepted fix, the completion of a fix, a first start, the completion of an installation — writing
+exactly that value. (Each of them goes through the one assignment in `set_health_state`, `swSetter`, or is
+`Application.apply_timestep`'s direct write.) -/
+theorem C14_inv_sw_actual (n : Node) (op : Op) (i : Nat) (x x' : Sw)
+    (hx : n.sws[i]? = some x) (hx' : (n.apply op).sws[i]? = some x') (hne : x'.actual ≠ x.actual) :
+    ∃ e ∈ evsFor "health_state_actual" .sw, swStepHas n op x x'.actual e := by
+  have hc := C14_sw_actual_only_by_event n op i x x' hx hx' hne
+  rw [C14_inv_events.1]
+  cases op <;> simp only [swActualCause] at hc
+  case tick =>
+    obtain ⟨hg, h | ⟨hf, c, hc1, hc2⟩ | ⟨ha, ho, c, hc1, hc2⟩⟩ := hc
+    · exact ⟨.swWake, by simp, h, hg, Or.inl rfl⟩
+    · exact ⟨.swFixTick, by simp, rfl, hf, hg, c, hc1, hc2⟩
+    · exact ⟨.appInstallTick, by simp, rfl, ha, ho, hg, c, hc1, hc2⟩
+  case startup => exact ⟨.swWake, by simp, hc.1, hc.2, Or.inr (Or.inl rfl)⟩
+  case shutdown => exact ⟨.swWake, by simp, hc.2.2.1, hc.2.2.2, Or.inr (Or.inr (Or.inl rfl))⟩
+  case reset => exact ⟨.swWake, by simp, hc.2.2.1, hc.2.2.2, Or.inr (Or.inr (Or.inr (Or.inl rfl)))⟩
+  case swSet nm h => exact ⟨.swExternal, by simp, nm, h, rfl, hc.1, hc.2⟩
+  case appRun nm => exact ⟨.swWake, by simp, hc.2.2.1, hc.2.2.2, Or.inr (Or.inr (Or.inr (Or.inr (Or.inl ⟨nm, rfl, hc.2.1⟩))))⟩
+  case sw k nm r =>
+    cases r <;> simp only [] at hc
+    case compromise => exact ⟨.swCompromise, by simp, k, nm, rfl, hc.1, hc.2.1, hc.2.2⟩
+    case fix => exact ⟨.swFixStart, by simp, k, nm, rfl, hc.1, hc.2.1, hc.2.2.1, hc.2.2.2.1, hc.2.2.2.2⟩
+    case start =>
+      exact ⟨.swWake, by simp, hc.2.2.1, hc.2.2.2, Or.inr (Or.inr (Or.inr (Or.inr (Or.inr ⟨k, nm, Or.inl rfl, hc.2.1⟩))))⟩
+    case execute =>
+      exact ⟨.swWake, by simp, hc.2.2.1, hc.2.2.2, Or.inr (Or.inr (Or.inr (Or.inr (Or.inr ⟨k, nm, Or.inr rfl, hc.2.1⟩))))⟩
+
+/-- **C14 against the inventory (software, visible health).** The inventory lists ONE writer of `health_state_visible` —
+`Software.scan` — and a visible value differs after a step only if the step contains that event for the item (`swScanCompletes`:
+its own accepted scan request, or the fan-out of the whole-node scan), the value being the item's actual health at that moment. -/
+theorem C14_inv_sw_visible (n : Node) (op : Op) (i : Nat) (x x' : Sw)
+    (hx : n.sws[i]? = some x) (hx' : (n.apply op).sws[i]? = some x') (hne : x'.visible ≠ x.visible) :
+    evsFor "health_state_visible" .sw = [.swScan] ∧ swScanCompletes n op (swMoment n op x) = true ∧
+      x'.visible = (swMoment n op x).actual :=
+  ⟨C14_inv_events.2.1, (C14_sw_visible_only_by_scan n op i x x' hx hx' hne).1,
+    (C14_sw_visible_only_by_scan n op i x x' hx hx' hne).2.1⟩
+
+/-- step `op` contains event `e` writing `new` into the actual health of file `f` of folder `G` -/
+def fileStepHas (n : Node) (op : Op) (G : Folder) (f : File) (new : FsH) : Ev → Prop
+  | .fileExternal => ∃ F nm, op = .fileSet F nm new ∧ G.name = F ∧ f.name = nm
+  | .fileCorrupt => f.actual = .good ∧ new = .corrupt ∧ f.deleted = false ∧ G.deleted = false ∧ n.power = .on ∧
+      ((∃ F nm, op = .file F nm .corrupt ∧ G.name = F ∧ f.name = nm) ∨ ∃ F, op = .folder F .corrupt ∧ G.name = F)
+  | .fileRepair => f.actual = .corrupt ∧ new = .good ∧ f.deleted = false ∧ G.deleted = false ∧ n.power = .on ∧
+      ((∃ F nm, op = .file F nm .repair ∧ G.name = F ∧ f.name = nm) ∨ ∃ F, op = .folder F .repair ∧ G.name = F)
+  | .fileRestore => f.actual = .corrupt ∧ new = .good ∧ f.deleted = false ∧ G.deleted = false ∧
+      ((∃ F nm, (op = .file F nm .restore ∨ op = .fsRestoreFile F nm) ∧ n.power = .on ∧ G.name = F ∧ f.name = nm) ∨
+       (op = .tick ∧ n.powerPhase.power = .on ∧ G.restoreCd = 1))
+  | _ => False
+
+/-- **C14 against the inventory (files, actual health).** A file's actual health differs after a step only if the step contains
+one of the events the inventory lists for a file's `health_status`: `File.corrupt` / `File.repair` / `File.restore` (reached by
+the file's own request, the folder's request, the file-system restore request, or the completing folder restore) or an external
+write (database query, FTP transfer). -/
+theorem C14_inv_file_actual (n : Node) (op : Op) (j k : Nat) (G G' : Folder) (f f' : File)
+    (hG : n.folders[j]? = some G) (hG' : (n.apply op).folders[j]? = some G')
+    (hf : G.files[k]? = some f) (hf' : G'.files[k]? = some f') (hne : f'.actual ≠ f.actual) :
+    ∃ e ∈ evsFor "health_status" .file, fileStepHas n op G f f'.actual e := by
+  have hc := C14_file_actual_only_by_event n op j k G G' f f' hG hG' hf hf' hne
+  rw [C14_inv_events.2.2.1]
+  cases op <;> simp only [fileActualCause] at hc
+  case tick => exact ⟨.fileRestore, by simp, hc.2.2.2.2.1, hc.2.2.2.2.2, hc.2.2.2.1, hc.2.1, Or.inr ⟨rfl, hc.1, hc.2.2.1⟩⟩
+  case fileSet F nm h => exact ⟨.fileExternal, by simp, F, nm, by rw [hc.2.2], hc.1, hc.2.1⟩
+  case fsRestoreFile F nm =>
+    exact ⟨.fileRestore, by simp, hc.2.2.2.2.2.1, hc.2.2.2.2.2.2, hc.2.2.2.2.1, hc.2.2.1,
+      Or.inl ⟨F, nm, Or.inr rfl, hc.1, hc.2.1, hc.2.2.2.1⟩⟩
+  case folder F r =>
+    cases r <;> simp only [] at hc
+    case repair => exact ⟨.fileRepair, by simp, hc.2.2.2.2.1, hc.2.2.2.2.2, hc.2.2.2.1, hc.2.2.1, hc.1, Or.inr ⟨F, rfl, hc.2.1⟩⟩
+    case corrupt => exact ⟨.fileCorrupt, by simp, hc.2.2.2.2.1, hc.2.2.2.2.2, hc.2.2.2.1, hc.2.2.1, hc.1, Or.inr ⟨F, rfl, hc.2.1⟩⟩
+  case file F nm r =>
+    cases r <;> simp only [] at hc
+    case repair =>
+      exact ⟨.fileRepair, by simp, hc.2.2.2.2.2.1, hc.2.2.2.2.2.2, hc.2.2.2.2.1, hc.2.2.1, hc.1, Or.inl ⟨F, nm, rfl, hc.2.1, hc.2.2.2.1⟩⟩
+    case corrupt =>
+      exact ⟨.fileCorrupt, by simp, hc.2.2.2.2.2.1, hc.2.2.2.2.2.2, hc.2.2.2.2.1, hc.2.2.1, hc.1, Or.inl ⟨F, nm, rfl, hc.2.1, hc.2.2.2.1⟩⟩
+    case restore =>
+      exact ⟨.fileRestore, by simp, hc.2.2.2.2.2.1, hc.2.2.2.2.2.2, hc.2.2.2.2.1, hc.2.2.1,
+        Or.inl ⟨F, nm, Or.inl rfl, hc.1, hc.2.1, hc.2.2.2.1⟩⟩
+
+/-- **C14 against the inventory (files, visible health).** The inventory lists two writers of a file's `visible_health_status`:
+`File.scan`, and the carry-over in `restore_backup`. For a file that exists before and after a base step only the first applies
+(`fileScanCompletes`, value = actual health); the second concerns the NEW file of a database restore, which shows what the replaced
+file showed (`C14_dyn_struct_fs`, `C14_view_db_restore`); `copy_file` copies every field of its source (`fileCopy`). -/
+theorem C14_inv_file_visible (n : Node) (op : Op) (j k : Nat) (G G' : Folder) (f f' : File)
+    (hG : n.folders[j]? = some G) (hG' : (n.apply op).folders[j]? = some G')
+    (hf : G.files[k]? = some f) (hf' : G'.files[k]? = some f') (hne : f'.visible ≠ f.visible) :
+    evsFor "visible_health_status" .file = [.fileScan, .dbReplace] ∧ evsFor "*" .file = [.fileCopy] ∧
+      fileScanCompletes n op G f = true ∧ f'.visible = f.actual :=
+  ⟨C14_inv_events.2.2.2.1, C14_inv_events.2.2.2.2.1,
+    (C14_file_visible_only_by_scan n op j k G G' f f' hG hG' hf hf' hne).1,
+    (C14_file_visible_only_by_scan n op j k G G' f f' hG hG' hf hf' hne).2.1⟩
+
+/-- **C14 against the inventory (folders).** The inventory lists two writers of a folder's `visible_health_status` — the completing
+timed scan and the instant scan of the whole-node scan — and six of its `health_status`; a folder's visible (resp. actual) health
+differs after a base step only if the step contains one of them (`folderScanCompletes`, resp. `folderActualCause`; the sixth, the
+external write, is `DOp.folderSet`). -/
+theorem C14_inv_folder (n : Node) (op : Op) (j : Nat) (G G' : Folder)
+    (hG : n.folders[j]? = some G) (hG' : (n.apply op).folders[j]? = some G') :
+    evsFor "visible_health_status" .folder = [.folderScanTick, .folderInstantScan] ∧
+    (G'.visible ≠ G.visible → folderScanCompletes n op G = true) ∧
+    evsFor "health_status" .folder =
+      [.folderRestoreTick, .folderScanTick, .folderCorrupt, .folderRepair, .folderRestoreStart, .folderExternal] ∧
+    (G'.actual ≠ G.actual → folderActualCause n op G G'.actual) :=
+  ⟨C14_inv_events.2.2.2.2.2.2, fun h => (C14_folder_visible_only_by_scan n op j G G' hG hG' h).1,
+    C14_inv_events.2.2.2.2.2.1, fun h => C14_folder_actual_only_by_event n op j G G' hG hG' h⟩
 
 end Primaite.Health
